@@ -164,7 +164,7 @@ def pick_op(rng, entry, ctx):
         d, named = rand_interp(rng, graph, top)
         args = [d]
     elif op == "to_ge_polyhedron":
-        args = [rng.random() < 0.6]
+        args = [rng.random() < 0.6, rng.random() < 0.3]          # (active, reduced)
     elif op == "solve":
         ids = [i for i in graph if i != top]
         if refmodel.box_size([graph[i]["b"] for i in ids], 1 << 14) > (1 << 14):
